@@ -94,6 +94,7 @@ type Profile struct {
 	Comments  bool // attach leading comments (descriptions)
 	CrossPkg  bool // bias towards several files, a sub-package first, and references across files
 	Collide   bool // add descriptors whose split names (path joined by "_") coincide
+	Clash     bool // add a message whose exposed oneof and a field get the same JSON property name
 }
 
 // Case is one generated descriptor set.
@@ -145,7 +146,7 @@ var msgNames = []string{"Foo", "Bar", "Baz", "Qux", "FooKeys", "FooState", "FooD
 var nestedNames = []string{"Bar", "Inner", "Kind", "Part", "Keys", "Leaf"}
 var enumNames = []string{"Kind", "Status", "Color", "Bar_Kind", "Mode"}
 var fieldNames = []string{"id", "name", "keys", "value", "foo_id", "bar", "baz", "kind", "status", "created_at", "items", "tags", "child", "parent", "data", "amount", "count", "flag", "type", "a_b", "a1", "fooBar", "x", "y", "z", "note", "ref", "when", "meta", "extra"}
-var oneofNames = []string{"type", "type", "choice", "kind_of", "opt"}
+var oneofNames = []string{"type", "type", "choice", "kind_of", "opt", "foo_bar"}
 
 // Generate builds one descriptor set.
 func Generate(r *vh.Rand, p Profile, deps []*descriptorpb.FileDescriptorProto) *Case {
@@ -187,6 +188,10 @@ func Generate(r *vh.Rand, p Profile, deps []*descriptorpb.FileDescriptorProto) *
 	if p.Collide {
 		addCollision(c.Gen[0], r.Chance(50))
 		g.tag("split-name-collision-crafted")
+	}
+	if p.Clash {
+		addOneofClash(c.Gen[0])
+		g.tag("exposed-oneof-json-name-clash-crafted")
 	}
 	if p.Supported {
 		repairSupported(c.Gen)
@@ -1712,4 +1717,22 @@ func addCollision(fd *descriptorpb.FileDescriptorProto, withRule bool) {
 		{Name: proto.String("s"), Number: proto.Int32(2), Label: opt, Type: descriptorpb.FieldDescriptorProto_TYPE_STRING.Enum()},
 	}}
 	fd.MessageType = append(fd.MessageType, col, colKind, colInner)
+}
+
+
+// addOneofClash appends `message Clash { oneof foo_bar { option (j5.ext.v1.oneof).expose = true;
+// string a = 1; } string fooBar = 2; }`: protoc and protodesc accept it (JSON-name conflicts are
+// checked between fields only); the exposed oneof's property is named lowerCamel("foo_bar") = "fooBar".
+func addOneofClash(fd *descriptorpb.FileDescriptorProto) {
+	opt := descriptorpb.FieldDescriptorProto_LABEL_OPTIONAL.Enum()
+	oo := &descriptorpb.OneofOptions{}
+	proto.SetExtension(oo, ext_j5pb.E_Oneof, &ext_j5pb.OneofOptions{Expose: true})
+	fd.MessageType = append(fd.MessageType, &descriptorpb.DescriptorProto{
+		Name:      proto.String("Clash"),
+		OneofDecl: []*descriptorpb.OneofDescriptorProto{{Name: proto.String("foo_bar"), Options: oo}},
+		Field: []*descriptorpb.FieldDescriptorProto{
+			{Name: proto.String("a"), Number: proto.Int32(1), Label: opt, Type: descriptorpb.FieldDescriptorProto_TYPE_STRING.Enum(), OneofIndex: proto.Int32(0)},
+			{Name: proto.String("fooBar"), Number: proto.Int32(2), Label: opt, Type: descriptorpb.FieldDescriptorProto_TYPE_STRING.Enum()},
+		},
+	})
 }
